@@ -32,3 +32,13 @@ Print Assumptions f2r_zero_padded.
 Example f2r_example :
   frames_to_frame_range [10; 8; 6; 4; 1; 2; 3; 20]%Z false 3 = Ok (s2b "010-004x-2,001-003,020").
 Proof. vm_compute. reflexivity. Qed.
+
+From GFS Require Import AuditProofs.
+
+(** unconditional form: each comma part of the produced string parses under the specification grammar and is padded *)
+Theorem every_part_of_the_result_parses_and_is_padded : forall l sorted z s,
+  l <> [] -> frames_to_frame_range l sorted z = Ok s ->
+  Forall (fun part => exists c, parse_comp part = Some c /\ part_padded z part c) (split_commas s []).
+Proof. exact f2r_every_part_parses_padded. Qed.
+Print Assumptions every_part_of_the_result_parses_and_is_padded.
+
